@@ -95,6 +95,7 @@ instance : Call1 (M σ tok) (Option (α → β)) α β where
 /-- where times and durations are plain nanosecond integers (the consumers, the gate): `d.Nanoseconds()`, `t.Add(d)` -/
 def _root_.Int.m_Nanoseconds (d : Int) : M σ tok Int := pure d
 def _root_.Int.m_Add (t d : Int) : M σ tok Int := pure (t + d)
+def _root_.Int.m_Sub (t u : Int) : M σ tok Int := pure (t - u)
 
 /-- final state and outcome of running a translated function from package state `x` with no pending defers -/
 def run (m : M σ tok α) (x : σ) : Out α × σ :=
